@@ -195,6 +195,10 @@ struct Verbatim {
     condition: usize,
     content: usize,
     pattern: usize,
+    /// 0 as is; 1 the block also carries a `check-lua-pattern` attribute (the other content-taking
+    /// validator's pattern; without `check-lua` it selects nothing and must not leak into the AI
+    /// request); 2 the run is in diff mode with a path argument that matches no file.
+    variant: u8,
 }
 
 fn check_verbatim(c: &Verbatim, sink: &Sink) {
@@ -207,16 +211,20 @@ fn check_verbatim(c: &Verbatim, sink: &Sink) {
     // A JS block comment can hold a newline inside an attribute value; values with `"` are
     // written in single quotes.
     let q = if condition.contains('"') { '\'' } else { '"' };
-    let pattern_attr = pattern.map(|p| format!(" check-ai-pattern=\"{p}\"")).unwrap_or_default();
+    let mut pattern_attr = pattern.map(|p| format!(" check-ai-pattern=\"{p}\"")).unwrap_or_default();
+    if c.variant == 1 {
+        pattern_attr.push_str(" check-lua-pattern=\"(?P<value>\\d)\"");
+    }
     let text = format!("/* <block id=\"k0\" check-ai={q}{condition}{q}{pattern_attr}> */\n{body}\n/* </block> */\n");
     let raw_content = format!("\n{body}\n");
     let expected_content = match pattern {
         None => raw_content.trim().to_string(),
         Some(p) => Regex::new(p).unwrap().captures(&raw_content).and_then(|caps| caps.name("value").or_else(|| caps.get(0)).map(|m| m.as_str().to_string())).unwrap_or_default(),
     };
-    let input = json!({"condition": c.condition, "content": c.content, "pattern": c.pattern});
+    let input = json!({"condition": c.condition, "content": c.content, "pattern": c.pattern, "variant": c.variant});
     sink.exec();
-    let outcome = librun::run(&Input { files: vec![("x.js".into(), text.clone())], ..Default::default() });
+    let (diff, globs) = if c.variant == 2 { (Some(crate::cli::new_file_diff("x.js", &text)), vec!["nomatch/**".to_string()]) } else { (None, vec![]) };
+    let outcome = librun::run(&Input { files: vec![("x.js".into(), text.clone())], diff, globs, ..Default::default() });
     let requests = FakeAi::global().take(&format!("{nonce}-k0"));
     let describe = |extra: &str| format!("condition {condition_text:?}, content {body:?}, pattern {pattern:?}: {extra}\n--- x.js ---\n{text}");
     sink.outcome(format!("verbatim:{}", outcome.class()));
@@ -332,12 +340,14 @@ pub fn run(cfg: &Cfg, sink: &Arc<Sink>) -> Report {
     for condition in 0..CONDITIONS.len() {
         for content in 0..CONTENTS.len() {
             for pattern in 0..PATTERNS.len() {
-                cases.push(Verbatim { condition, content, pattern });
+                for variant in 0..3u8 {
+                    cases.push(Verbatim { condition, content, pattern, variant });
+                }
             }
         }
     }
     let total = cases.len();
-    report.phase(engine::explore("verbatim transport", &format!("{total} cases (full product)"), Grid { cases, check: |c: &Verbatim, s: &Sink| check_verbatim(c, s) }, sink, cfg.threads, false));
+    report.phase(engine::explore("verbatim transport", &format!("{total} cases (full product of condition × content × pattern × {{as is, with a check-lua-pattern attribute on the block, diff mode with a non-matching path argument}})"), Grid { cases, check: |c: &Verbatim, s: &Sink| check_verbatim(c, s) }, sink, cfg.threads, false));
     let mut n = 0;
     for k in [5usize, 8, 16] {
         for fault_at in [None, Some(0), Some(k / 2), Some(k - 1)] {
@@ -358,7 +368,7 @@ pub fn replay(_cfg: &Cfg, input: &Value, sink: &Arc<Sink>) {
     } else if input.get("whole_run_fault").is_some() {
         whole_run_faults(sink);
     } else if let Some(c) = input.get("condition").and_then(Value::as_u64) {
-        check_verbatim(&Verbatim { condition: c as usize, content: input["content"].as_u64().unwrap_or(0) as usize, pattern: input["pattern"].as_u64().unwrap_or(0) as usize }, sink);
+        check_verbatim(&Verbatim { condition: c as usize, content: input["content"].as_u64().unwrap_or(0) as usize, pattern: input["pattern"].as_u64().unwrap_or(0) as usize, variant: input["variant"].as_u64().unwrap_or(0) as u8 }, sink);
     } else {
         let blocks: Vec<(usize, usize)> = input["blocks"].as_array().map(|a| a.iter().filter_map(|v| Some((v[0].as_u64()? as usize, v[1].as_u64()? as usize))).collect()).unwrap_or_default();
         check_blocks(&blocks, sink);
